@@ -195,8 +195,19 @@ theorem Chan.inv_foldl (limit : Nat) (es : List Ev) (c : Chan) (pre : List Ev) (
 /-- A recorded request that the client took as acknowledged. -/
 def ackedBy (tr : Transport) (e : Entry) : Bool := okResp tr e.resp
 
-/-- Number of responses in a script that the client will count as failures. -/
-def failCount (tr : Transport) (script : List Resp) : Nat := (script.filter fun r => !okResp tr r).length
+/-- What one response costs the retry budget: 1 when the client counts it as a failure, plus 1 when it leaves a
+    stale sender in the slot (the next attempt fails on it without reaching the endpoint). -/
+def respCost (tr : Transport) (r : Resp) : Nat :=
+  (if okResp tr r then 0 else 1) + (if r.leavesStale then 1 else 0)
+
+/-- Upper bound of the attempts that will fail while the endpoint works through a script. -/
+def failCount (tr : Transport) : List Resp → Nat
+  | [] => 0
+  | r :: rs => respCost tr r + failCount tr rs
+
+/-- The same for a transport state: the script, plus the failure a stale pooled sender already holds. -/
+def Net.pending (tr : Transport) (net : Net) : Nat :=
+  failCount tr net.script + (if net.staleNow then 1 else 0)
 
 theorem okResp_ack (tr : Transport) : okResp tr .ack = true := by cases tr <;> decide
 
@@ -206,15 +217,22 @@ theorem attempt_dead (tr : Transport) (net : Net) (r : Request) (h : net.dead = 
     attempt tr net r = (false, { net with slot := false }) := by
   simp [attempt, h]
 
-theorem attempt_live (tr : Transport) (net : Net) (r : Request) (h : net.dead = false) :
+theorem attempt_stale (tr : Transport) (net : Net) (r : Request) (h : net.dead = false)
+    (hs : net.staleNow = true) :
+    attempt tr net r = (false, { net with slot := false, stale := false }) := by
+  simp [attempt, h, hs]
+
+theorem attempt_live (tr : Transport) (net : Net) (r : Request) (h : net.dead = false)
+    (hs : net.staleNow = false) :
     attempt tr net r = (okResp tr net.nextResp, net.record r) := by
-  simp [attempt, h]
+  simp [attempt, h, hs]
 
 @[simp] theorem record_log (net : Net) (r : Request) :
     (net.record r).log = ⟨if net.nextResp = .rstB then none else some (reqIds r), net.nextResp, !net.slot⟩ :: net.log := rfl
 @[simp] theorem record_dead (net : Net) (r : Request) : (net.record r).dead = net.dead := rfl
 @[simp] theorem record_script (net : Net) (r : Request) : (net.record r).script = net.script.tail := rfl
 @[simp] theorem record_slot (net : Net) (r : Request) : (net.record r).slot = net.nextResp.headArrives := rfl
+@[simp] theorem record_stale (net : Net) (r : Request) : (net.record r).stale = net.nextResp.leavesStale := rfl
 
 /-- A successful `send`: every request of the batch reached the endpoint exactly once, in order, each was
     acknowledged, and nothing else was sent. -/
@@ -223,7 +241,7 @@ theorem send_ok (tr : Transport) (reqs : List Request) (net net' : Net)
     ∃ es : List Entry, net'.log = es ++ net.log ∧
       es.reverse.map (·.ids) = reqs.map (fun r => some (reqIds r)) ∧
       (∀ e ∈ es, ackedBy tr e = true) ∧ net'.dead = net.dead ∧
-      net'.script = net.script.drop reqs.length ∧ (reqs ≠ [] → net.dead = false) := by
+      net'.script = net.script.drop reqs.length ∧ (reqs ≠ [] → net.dead = false ∧ net.staleNow = false) := by
   induction reqs generalizing net with
   | nil =>
     simp only [send, Prod.mk.injEq, true_and] at h
@@ -234,15 +252,79 @@ theorem send_ok (tr : Transport) (reqs : List Request) (net net' : Net)
     cases hd : net.dead with
     | true => simp [attempt_dead tr net r hd] at h
     | false =>
-      rw [attempt_live tr net r hd] at h
+      cases hst : net.staleNow with
+      | true => simp [attempt_stale tr net r hd hst] at h
+      | false =>
+        rw [attempt_live tr net r hd hst] at h
+        cases hok : okResp tr net.nextResp with
+        | false => simp [hok] at h
+        | true =>
+          simp only [hok] at h
+          obtain ⟨es, hlog, hids, hack, hdead, hscript, _⟩ := ih _ h
+          have hne : net.nextResp ≠ .rstB := by
+            intro hc; rw [hc, okResp_not_rstB] at hok; cases hok
+          refine ⟨es ++ [⟨some (reqIds r), net.nextResp, !net.slot⟩], ?_, ?_, ?_, ?_, ?_, ?_⟩
+          · simp [hlog, hne]
+          · simp [hids]
+          · intro e he
+            simp only [List.mem_append, List.mem_singleton] at he
+            rcases he with he | rfl
+            · exact hack e he
+            · simpa [ackedBy] using hok
+          · simp [hdead, hd]
+          · simp [hscript]
+          · intro _; exact ⟨rfl, rfl⟩
+
+theorem send_dead (tr : Transport) (r : Request) (rs : List Request) (net : Net) (h : net.dead = true) :
+    send tr (r :: rs) net = (.retry (r :: rs), { net with slot := false }) := by
+  simp [send, attempt_dead tr net r h]
+
+/-- A failing `send` on a live endpoint. `fs` is the failed transmission: one entry — or none, when the attempt
+    found a stale sender in the slot (left there by the initial state or by the response to the last
+    acknowledged request) and nothing reached the endpoint. -/
+theorem send_retry (tr : Transport) (reqs rem : List Request) (net net' : Net) (hd : net.dead = false)
+    (h : send tr reqs net = (.retry rem, net')) :
+    ∃ (done : List Request) (es fs : List Entry) (r : Request) (rest : List Request),
+      reqs = done ++ rem ∧ rem = r :: rest ∧
+      net'.log = fs ++ (es ++ net.log) ∧
+      es.reverse.map (·.ids) = done.map (fun r => some (reqIds r)) ∧
+      (∀ e ∈ es, ackedBy tr e = true) ∧
+      net'.dead = false ∧
+      ((∃ f, fs = [f] ∧ ackedBy tr f = false ∧ (f.ids = some (reqIds r) ∨ (f.ids = none ∧ f.resp = .rstB)) ∧
+          net'.slot = f.resp.headArrives ∧ net'.stale = f.resp.leavesStale) ∨
+       (fs = [] ∧ net'.slot = false ∧
+          ((es = [] ∧ net.staleNow = true) ∨ (∃ e es', es = e :: es' ∧ e.resp.leavesStale = true)))) := by
+  induction reqs generalizing net with
+  | nil => simp [send] at h
+  | cons r rs ih =>
+    simp only [send] at h
+    cases hst : net.staleNow with
+    | true =>
+      rw [attempt_stale tr net r hd hst] at h
+      simp only [Prod.mk.injEq, SendResult.retry.injEq] at h
+      obtain ⟨hrem, hnet⟩ := h
+      subst hrem hnet
+      exact ⟨[], [], [], r, rs, by simp, rfl, by simp, by simp, by simp, hd,
+        Or.inr ⟨rfl, rfl, Or.inl ⟨rfl, rfl⟩⟩⟩
+    | false =>
+      rw [attempt_live tr net r hd hst] at h
       cases hok : okResp tr net.nextResp with
-      | false => simp [hok] at h
+      | false =>
+        simp only [hok, Prod.mk.injEq, SendResult.retry.injEq] at h
+        obtain ⟨hrem, hnet⟩ := h
+        subst hrem hnet
+        refine ⟨[], [], [⟨if net.nextResp = .rstB then none else some (reqIds r), net.nextResp, !net.slot⟩],
+          r, rs, by simp, rfl, by simp, by simp, by simp, hd, Or.inl ⟨_, rfl, ?_, ?_, by simp, by simp⟩⟩
+        · simpa [ackedBy] using hok
+        · by_cases hb : net.nextResp = .rstB <;> simp [hb]
       | true =>
         simp only [hok] at h
-        obtain ⟨es, hlog, hids, hack, hdead, hscript, _⟩ := ih _ h
         have hne : net.nextResp ≠ .rstB := by
           intro hc; rw [hc, okResp_not_rstB] at hok; cases hok
-        refine ⟨es ++ [⟨some (reqIds r), net.nextResp, !net.slot⟩], ?_, ?_, ?_, ?_, ?_, ?_⟩
+        obtain ⟨done, es, fs, r', rest, hreqs, hrem, hlog, hids, hack, hdead, hcase⟩ :=
+          ih _ (by simpa using hd) h
+        refine ⟨r :: done, es ++ [⟨some (reqIds r), net.nextResp, !net.slot⟩], fs, r', rest,
+          by simp [hreqs], hrem, ?_, ?_, ?_, hdead, ?_⟩
         · simp [hlog, hne]
         · simp [hids]
         · intro e he
@@ -250,70 +332,73 @@ theorem send_ok (tr : Transport) (reqs : List Request) (net net' : Net)
           rcases he with he | rfl
           · exact hack e he
           · simpa [ackedBy] using hok
-        · simp [hdead, hd]
-        · simp [hscript]
-        · intro _; rfl
-
-theorem send_dead (tr : Transport) (r : Request) (rs : List Request) (net : Net) (h : net.dead = true) :
-    send tr (r :: rs) net = (.retry (r :: rs), { net with slot := false }) := by
-  simp [send, attempt_dead tr net r h]
-
-theorem send_retry (tr : Transport) (reqs rem : List Request) (net net' : Net) (hd : net.dead = false)
-    (h : send tr reqs net = (.retry rem, net')) :
-    ∃ (done : List Request) (es : List Entry) (f : Entry) (r : Request) (rest : List Request),
-      reqs = done ++ rem ∧ rem = r :: rest ∧
-      net'.log = f :: (es ++ net.log) ∧
-      es.reverse.map (·.ids) = done.map (fun r => some (reqIds r)) ∧
-      (∀ e ∈ es, ackedBy tr e = true) ∧
-      ackedBy tr f = false ∧ (f.ids = some (reqIds r) ∨ (f.ids = none ∧ f.resp = .rstB)) ∧
-      net'.dead = false ∧
-      net.script.drop done.length = f.resp :: net'.script ∧
-      net'.slot = f.resp.headArrives := by
-  induction reqs generalizing net with
-  | nil => simp [send] at h
-  | cons r rs ih =>
-    simp only [send] at h
-    rw [attempt_live tr net r hd] at h
-    cases hok : okResp tr net.nextResp with
-    | false =>
-      simp only [hok, Prod.mk.injEq, SendResult.retry.injEq] at h
-      obtain ⟨hrem, hnet⟩ := h
-      subst hrem hnet
-      refine ⟨[], [], ⟨if net.nextResp = .rstB then none else some (reqIds r), net.nextResp, !net.slot⟩,
-        r, rs, by simp, rfl, by simp, by simp, by simp, ?_, ?_, hd, ?_, by simp⟩
-      · simpa [ackedBy] using hok
-      · by_cases hb : net.nextResp = .rstB <;> simp [hb]
-      · cases hs : net.script with
-        | nil => simp [Net.nextResp, hs, okResp_ack] at hok
-        | cons a as => simp [Net.nextResp, hs]
-    | true =>
-      simp only [hok] at h
-      have hne : net.nextResp ≠ .rstB := by
-        intro hc; rw [hc, okResp_not_rstB] at hok; cases hok
-      obtain ⟨done, es, f, r', rest, hreqs, hrem, hlog, hids, hack, hf, hfid, hdead, hscript, hslot⟩ :=
-        ih _ (by simpa using hd) h
-      refine ⟨r :: done, es ++ [⟨some (reqIds r), net.nextResp, !net.slot⟩], f, r', rest,
-        by simp [hreqs], hrem, ?_, ?_, ?_, hf, hfid, hdead, ?_, hslot⟩
-      · simp [hlog, hne]
-      · simp [hids]
-      · intro e he
-        simp only [List.mem_append, List.mem_singleton] at he
-        rcases he with he | rfl
-        · exact hack e he
-        · simpa [ackedBy] using hok
-      · simpa [List.tail_drop] using hscript
+        · rcases hcase with hreal | ⟨hfs, hslot, hcause⟩
+          · exact Or.inl hreal
+          · refine Or.inr ⟨hfs, hslot, Or.inr ?_⟩
+            rcases hcause with ⟨hes, hstale⟩ | ⟨e, es', hes, hle⟩
+            · subst hes
+              refine ⟨⟨some (reqIds r), net.nextResp, !net.slot⟩, [], by simp, ?_⟩
+              simp only [Net.staleNow, record_slot, record_stale, Bool.and_eq_true] at hstale
+              exact hstale.2
+            · exact ⟨e, es' ++ [⟨some (reqIds r), net.nextResp, !net.slot⟩], by simp [hes], hle⟩
 
 
 /-! ### C12: the retry loop -/
 
-theorem failCount_drop_le (tr : Transport) (s : List Resp) (k : Nat) :
-    failCount tr (s.drop k) ≤ failCount tr s := by
-  unfold failCount
-  exact ((List.drop_sublist k s).filter _).length_le
+theorem failCount_nil (tr : Transport) : failCount tr [] = 0 := rfl
 
-theorem failCount_cons_fail (tr : Transport) (r : Resp) (s : List Resp) (h : okResp tr r = false) :
-    failCount tr (r :: s) = failCount tr s + 1 := by
-  simp [failCount, h]
+theorem failCount_tail_le (tr : Transport) (s : List Resp) : failCount tr s.tail ≤ failCount tr s := by
+  cases s with
+  | nil => simp [failCount]
+  | cons a as => simp only [List.tail_cons, failCount]; omega
+
+/-- The potential argument behind the retry budget: a failing `send` uses up at least one unit of
+    `Net.pending`, a successful one never adds to it. -/
+theorem send_pending (tr : Transport) (reqs : List Request) (net net' : Net) (res : SendResult)
+    (hd : net.dead = false) (h : send tr reqs net = (res, net')) :
+    (∀ rem, res = .retry rem → net'.pending tr + 1 ≤ net.pending tr) ∧ net'.pending tr ≤ net.pending tr := by
+  induction reqs generalizing net with
+  | nil =>
+    simp only [send, Prod.mk.injEq] at h
+    obtain ⟨h1, h2⟩ := h
+    subst h1 h2
+    exact ⟨(by intro rem hr; cases hr), Nat.le_refl _⟩
+  | cons r rs ih =>
+    simp only [send] at h
+    cases hst : net.staleNow with
+    | true =>
+      rw [attempt_stale tr net r hd hst] at h
+      simp only [Prod.mk.injEq] at h
+      obtain ⟨h1, h2⟩ := h
+      subst h1 h2
+      have hst' := hst
+      simp only [Net.staleNow, Bool.and_eq_true] at hst'
+      simp [Net.pending, Net.staleNow, hst']
+    | false =>
+      rw [attempt_live tr net r hd hst] at h
+      -- one transmission: the head of the script is consumed
+      have hstep : (net.record r).pending tr + (if okResp tr net.nextResp then 0 else 1) ≤ net.pending tr := by
+        simp only [Net.pending, Net.staleNow, record_slot, record_stale, record_script]
+        cases hs : net.script with
+        | nil =>
+          have : net.nextResp = .ack := by simp [Net.nextResp, hs]
+          simp [this, okResp_ack, failCount, Resp.leavesStale]
+        | cons a as =>
+          have : net.nextResp = a := by simp [Net.nextResp, hs]
+          simp only [this, List.tail_cons, failCount, respCost]
+          cases okResp tr a <;> cases a.leavesStale <;> cases a.headArrives <;> simp <;> omega
+      cases hok : okResp tr net.nextResp with
+      | false =>
+        simp only [hok, Prod.mk.injEq] at h
+        obtain ⟨h1, h2⟩ := h
+        subst h1 h2
+        simp only [hok, Bool.false_eq_true, ↓reduceIte] at hstep
+        exact ⟨(by intro _ _; exact hstep), by omega⟩
+      | true =>
+        simp only [hok] at h
+        simp only [hok, ↓reduceIte, Nat.add_zero] at hstep
+        obtain ⟨h1, h2⟩ := ih _ (by simpa using hd) h
+        exact ⟨(by intro rem hr; have := h1 rem hr; omega), by omega⟩
 
 theorem send_ne_noRetry (tr : Transport) (reqs : List Request) (net net' : Net) :
     send tr reqs net ≠ (.noRetry, net') := by
@@ -327,10 +412,11 @@ theorem send_ne_noRetry (tr : Transport) (reqs : List Request) (net net' : Net) 
       · simp
       · simpa using ih n
 
-/-- While the failures the collector will still answer with fit in the retry budget, the batch is delivered:
-    the receiver reports success and every request has an acknowledged entry among the new log entries. -/
+/-- While the failures still to come (failing responses of the script, stale pooled senders) fit in the retry
+    budget, the batch is delivered: the receiver reports success and every request has an acknowledged entry
+    among the new log entries. -/
 theorem exec_delivers (tr : Transport) (total : Nat) (ht : 0 < total) (retries : Nat) (reqs : List Request)
-    (net : Net) (hd : net.dead = false) (hf : failCount tr net.script ≤ retries) :
+    (net : Net) (hd : net.dead = false) (hf : net.pending tr ≤ retries) :
     ∃ (net' : Net) (es : List Entry), execBatch tr total retries reqs net = (true, net') ∧
       net'.log = es ++ net.log ∧ net'.dead = false ∧
       ∀ r ∈ reqs, ∃ e ∈ es, ackedBy tr e = true ∧ e.ids = some (reqIds r) := by
@@ -349,9 +435,7 @@ theorem exec_delivers (tr : Transport) (total : Nat) (ht : 0 < total) (retries :
         exact ⟨e, by simpa using he, hack e (by simpa using he), hid⟩
       | noRetry => exact absurd hs (send_ne_noRetry tr reqs net n1)
       | retry rem =>
-        obtain ⟨done, es, f, r, rest, _, _, _, _, _, hfail, _, _, hscript, _⟩ := send_retry tr reqs rem net n1 hd hs
-        have h1 := failCount_drop_le tr net.script done.length
-        rw [hscript, failCount_cons_fail tr _ _ (by simpa [ackedBy] using hfail)] at h1
+        have := (send_pending tr reqs net n1 _ hd hs).1 rem rfl
         omega
   | succ k ih =>
     rw [execBatch]
@@ -367,13 +451,12 @@ theorem exec_delivers (tr : Transport) (total : Nat) (ht : 0 < total) (retries :
         exact ⟨e, by simpa using he, hack e (by simpa using he), hid⟩
       | noRetry => exact absurd hs (send_ne_noRetry tr reqs net n1)
       | retry rem =>
-        obtain ⟨done, es, f, r, rest, hreqs, _, hlog, hids, hack, hfail, _, hdead, hscript, _⟩ :=
+        obtain ⟨done, es, fs, r, rest, hreqs, _, hlog, hids, hack, hdead, _⟩ :=
           send_retry tr reqs rem net n1 hd hs
-        have h1 := failCount_drop_le tr net.script done.length
-        rw [hscript, failCount_cons_fail tr _ _ (by simpa [ackedBy] using hfail)] at h1
+        have h1 := (send_pending tr reqs net n1 _ hd hs).1 rem rfl
         obtain ⟨net', es', hex, hlog', hdead', hall⟩ := ih rem n1 hdead (by omega)
         simp only [ht, ↓reduceIte]
-        refine ⟨net', es' ++ f :: es, hex, by simp [hlog', hlog], hdead', ?_⟩
+        refine ⟨net', es' ++ (fs ++ es), hex, by simp [hlog', hlog], hdead', ?_⟩
         intro q hq
         rw [hreqs] at hq
         rcases List.mem_append.1 hq with hq | hq
@@ -383,10 +466,10 @@ theorem exec_delivers (tr : Transport) (total : Nat) (ht : 0 < total) (retries :
         · obtain ⟨e, he, h2⟩ := hall q hq
           exact ⟨e, by simp [he], h2⟩
 
-/-- Without any failing response the batch goes through on the first `send`: the new log entries are exactly
+/-- Without any failure to come the batch goes through on the first `send`: the new log entries are exactly
     the batch's requests, each once, each acknowledged. -/
 theorem exec_no_failure (tr : Transport) (total retries : Nat) (reqs : List Request) (net : Net)
-    (hd : net.dead = false) (hf : failCount tr net.script = 0) :
+    (hd : net.dead = false) (hf : net.pending tr = 0) :
     ∃ (net' : Net) (es : List Entry), execBatch tr total retries reqs net = (true, net') ∧
       net'.log = es ++ net.log ∧ es.reverse.map (·.ids) = reqs.map (fun r => some (reqIds r)) ∧
       ∀ e ∈ es, ackedBy tr e = true := by
@@ -400,9 +483,7 @@ theorem exec_no_failure (tr : Transport) (total retries : Nat) (reqs : List Requ
       exact ⟨rfl, es, hlog, hids, hack⟩
     | noRetry => exact absurd hs (send_ne_noRetry tr reqs net n1)
     | retry rem =>
-      obtain ⟨done, es, f, r, rest, _, _, _, _, _, hfail, _, _, hscript, _⟩ := send_retry tr reqs rem net n1 hd hs
-      have h1 := failCount_drop_le tr net.script done.length
-      rw [hscript, failCount_cons_fail tr _ _ (by simpa [ackedBy] using hfail)] at h1
+      have := (send_pending tr reqs net n1 _ hd hs).1 rem rfl
       omega
   cases hs : send tr reqs net with
   | mk res n1 =>
